@@ -291,6 +291,10 @@ def crosshair(job):
     xhair.run_contracts(job, "C15", XHAIR, timeout=30)
 
 
+BATTERY_EXTRA = [("vf.props.C15:concrete_reject", {"p": -0.25}), ("vf.props.C15:concrete_reject", {"p": 1.5}), ("vf.props.C15:concrete", {"p": 0.0, "M1": 18.02, "M2": 46.07}),
+                 ("vf.props.C15:concrete", {"p": 1.0, "M1": 60.1, "M2": 18.02, "q": 0.4})]
+
+
 def jobs(tier):
     js = [("identities", "identities", {}), ("rejection", "rejection", {}), ("reuse", "reuse", {})]
     if tier == "thorough":
